@@ -190,7 +190,7 @@ var ruleMotifs = []struct {
 	{[]string{"other"}, nil, false, 2},
 }
 
-func (g *gen) rule(label string, nsteps, offAt int) (Rule, bool) {
+func (g *gen) rule(label string, nsteps, offAt, setup int) (Rule, bool) {
 	var r Rule
 	restart := false
 	if rapid.IntRange(0, 9).Draw(g.t, label+"free") < 8 {
@@ -216,7 +216,11 @@ func (g *gen) rule(label string, nsteps, offAt int) (Rule, bool) {
 	}
 	// armed from a step before faults-off; rarely from the very first Open on.
 	hi := max(0, offAt-1)
-	lo := min(2, hi)
+	lo := min(setup+1, hi)
+	if rapid.IntRange(0, 2).Draw(g.t, label+"early") > 0 {
+		// mostly armed early, so that many steps run under the rule
+		hi = max(lo, (lo+hi)/2)
+	}
 	r.From = rapid.IntRange(lo, hi).Draw(g.t, label+"from")
 	if rapid.IntRange(0, 19).Draw(g.t, label+"open0") == 0 {
 		r.From = -1
@@ -225,25 +229,61 @@ func (g *gen) rule(label string, nsteps, offAt int) (Rule, bool) {
 		r.To = rapid.IntRange(max(r.From, 0), nsteps).Draw(g.t, label+"to")
 		r.Max = rapid.SampledFrom([]int{2, 3, 5, 8, 20}).Draw(g.t, label+"max")
 	} else {
-		r.Nth = rapid.SampledFrom([]int{1, 1, 1, 2, 2, 3, 4, 6, 9, 15}).Draw(g.t, label+"nth")
+		r.Nth = rapid.SampledFrom([]int{1, 1, 1, 2, 2, 3, 3, 4, 6, 9}).Draw(g.t, label+"nth")
 	}
 	return r, restart
+}
+
+func readish(r Rule) bool {
+	if !contains(r.Kinds, "read") && !contains(r.Kinds, "open") {
+		return false
+	}
+	return len(r.Classes) == 0 || contains(r.Classes, "sst") || contains(r.Classes, "blob")
 }
 
 func genPlan(t *rapid.T) Plan {
 	g := &gen{t: t}
 	var p Plan
 	p.Opt = dbm.GenOptions(t, dbm.Profile{Name: "C43", Opt: tweakOptions})
-	n := rapid.IntRange(10, 30).Draw(t, "nsteps")
+	n := rapid.IntRange(12, 30).Draw(t, "nsteps")
 	// faults-off position: the step index at which the "faultsoff" step sits.
-	offAt := rapid.IntRange(n*5/10, n-1).Draw(t, "offat")
+	offAt := rapid.IntRange(n*6/10, n-1).Draw(t, "offat")
+	// setup prefix: a few commits, mostly ending in a flush, so that tables exist
+	// before the first rule is armed.
+	setup := rapid.IntRange(2, 4).Draw(t, "setup")
+	nr := rapid.SampledFrom([]int{1, 1, 2, 2, 2, 3}).Draw(t, "nrules")
+	type ruleInfo struct {
+		r       Rule
+		restart bool
+	}
+	var rules []ruleInfo
+	for i := 0; i < nr; i++ {
+		r, restart := g.rule(fmt.Sprintf("r%d", i), n, offAt, setup)
+		rules = append(rules, ruleInfo{r, restart})
+		p.Rules = append(p.Rules, r)
+	}
 	for i := 0; i < n; i++ {
 		l := fmt.Sprintf("s%d", i)
 		if i == offAt {
 			p.Steps = append(p.Steps, Step{K: "faultsoff"})
 			continue
 		}
-		s := Step{K: pick(t, l+"kind", []wchoice{{"write", 34}, {"batch", 14}, {"get", 14}, {"scan", 9}, {"iter", 7}, {"flush", 9}, {"compact", 5}, {"wait", 4}, {"restart", 4}, {"crashcheck", 3}})}
+		ws := []wchoice{{"write", 32}, {"batch", 14}, {"get", 12}, {"scan", 8}, {"iter", 7}, {"flush", 9}, {"compact", 5}, {"wait", 3}, {"restart", 4}, {"crashcheck", 3}}
+		switch {
+		case i < setup:
+			ws = []wchoice{{"write", 10}, {"batch", 30}}
+		case i == setup:
+			ws = []wchoice{{"flush", 80}, {"batch", 20}}
+		default:
+			for _, ri := range rules {
+				// reads right after a read rule is armed (the block cache is tiny:
+				// they reach the file system)
+				if readish(ri.r) && i >= ri.r.From && i <= ri.r.From+5 {
+					ws[2].w, ws[3].w, ws[4].w = 30, 22, 18
+				}
+			}
+		}
+		s := Step{K: pick(t, l+"kind", ws)}
 		switch s.K {
 		case "write":
 			s.Ops = []dbm.Op{g.writeOp(l)}
@@ -273,24 +313,22 @@ func genPlan(t *rapid.T) Plan {
 		}
 		p.Steps = append(p.Steps, s)
 	}
-	nr := rapid.SampledFrom([]int{1, 1, 1, 2, 2, 3}).Draw(t, "nrules")
-	for i := 0; i < nr; i++ {
-		l := fmt.Sprintf("r%d", i)
-		r, restart := g.rule(l, n, offAt)
-		p.Rules = append(p.Rules, r)
-		if restart {
-			// the rule only matters when the store is reopened while it is armed:
-			// turn one step of its window into a restart.
-			lo := max(r.From, 0)
-			hi := offAt - 1
-			if r.Nth == 0 && r.To < hi {
-				hi = max(r.To, lo)
-			}
-			if lo <= hi {
-				j := rapid.IntRange(lo, hi).Draw(t, l+"restartat")
-				if p.Steps[j].K != "faultsoff" {
-					p.Steps[j] = Step{K: "restart"}
-				}
+	for i, ri := range rules {
+		if !ri.restart {
+			continue
+		}
+		// the rule only matters when the store is reopened while it is armed:
+		// turn one step of its window into a restart.
+		r := ri.r
+		lo := max(r.From, 0)
+		hi := offAt - 1
+		if r.Nth == 0 && r.To < hi {
+			hi = max(r.To, lo)
+		}
+		if lo <= hi {
+			j := rapid.IntRange(lo, hi).Draw(t, fmt.Sprintf("r%drestartat", i))
+			if p.Steps[j].K != "faultsoff" {
+				p.Steps[j] = Step{K: "restart"}
 			}
 		}
 	}
